@@ -279,6 +279,28 @@ func (ex *Exec) checkEnsures(st *State, in *ssa.Return) {
 		return
 	}
 	env := ex.contractEnv(st, nil)
+	// frame of the ghost state: a ghost variable that is not listed in `modifies` is unchanged
+	// (a caller that applies this contract havocs only the listed ones)
+	mod := map[string]bool{}
+	for _, m := range ct.Modifies {
+		if qn, ok := QualifiedName(m.E); ok {
+			mod[qn] = true
+		}
+	}
+	for _, n := range ex.Spec.GhostOrder {
+		if mod[n] {
+			continue
+		}
+		cur, ok := st.ghost[n].(*Term)
+		if !ok {
+			continue
+		}
+		init := Var(n+"@0", ex.Spec.Ghosts[n])
+		if Equal(cur, init) {
+			continue
+		}
+		ex.oblige(st, "frame", "frame:"+n, Eq(cur, init), in.Pos(), "ghost variable "+n+" is not in the modifies clause")
+	}
 	for _, en := range ct.Ensures {
 		g := ex.evalBool(st, en.E, env, en)
 		ex.oblige(st, "ensures", "ensures:"+en.Label, g, in.Pos(), en.Src)
